@@ -26,7 +26,6 @@ structure FrontOK (st : Static) (nodes : List AstNode) (d0 : Defs) : Prop where
     sz' = sz ∧ es'.getD k' default = es.getD k default
   labelNotKnown : ∀ l nm ne r, AstNode.symbol l nm .label ne (some r) ∈ nodes → (d0.sym r).known = false
   j : ∀ r, (d0.sym r).known = true → (d0.sym r).value ≠ .unknown → (d0.sym r).resolved = true
-  params : ParamsOK d0
 
 /-- the witness of a marked instruction -/
 def IW (st : Static) (nodes : List AstNode) (d0 d : Defs) (ref : Nat) : Prop :=
